@@ -9,19 +9,19 @@ use serde::Deserialize;
 #[derive(Clone, Debug, Deserialize, Eq, PartialEq)]
 pub struct LegacyTransaction {
     /// The nonce for the transaction.
-    #[serde(with = "ethnum::serde::permissive")]
+    #[serde(with = "serialization::uint")]
     pub nonce: U256,
     /// The gas price in Wei for the transaction.
-    #[serde(rename = "gasPrice", with = "ethnum::serde::permissive")]
+    #[serde(rename = "gasPrice", with = "serialization::uint")]
     pub gas_price: U256,
     /// The gas limit for the transaction.
-    #[serde(with = "ethnum::serde::permissive")]
+    #[serde(with = "serialization::uint")]
     pub gas: U256,
     /// The target address for the transaction. This can also be `None` to
     /// indicate a contract creation transaction.
     pub to: Option<Address>,
     /// The amount of Ether to send with the transaction.
-    #[serde(with = "ethnum::serde::permissive")]
+    #[serde(with = "serialization::uint")]
     pub value: U256,
     /// The calldata to use for the transaction.
     #[serde(with = "serialization::bytes")]
